@@ -21,8 +21,11 @@ Requests: method in {GET, POST, OPTIONS, LOCK, HEAD, WEBSOCKET (meta), BOGUS} x 
 (each prefix, its boundary /a vs /ab vs /a/, nested, digits, a miss).
 
 Bound: histories of length <= 3 (quick) / <= 4 (thorough); the alphabet shrinks
-with the length (all 32 method subsets at length 1, see `alphabets()`), every
-history over the stated alphabet of its length is run -- no sampling.
+with the length -- nested alphabets FULL(134, all 32 method subsets) > MID(28) >
+CORE(13) > MIN(10), see `alphabets()`:
+  quick    FULL^1 + MID^2  + CORE^3           = 3 116 histories
+  thorough FULL^1 + FULL^2 + MID^3  + MIN^4   = 50 043 histories
+every history over the stated alphabet of its length is run -- no sampling.
 
 Oracle: `Model` -- a list of registrations; dispatch computed from the list by
 the rules of the property statement.  Observed: which generated responder / sink
